@@ -40,6 +40,10 @@ def harnesses(tier, seed):
             want = P.expected_cell({c: c in sub for c in cells})
             kw2 = "cells=%r, pass_through=%r" % (tuple(sub), want)
             hs.append(gen.custom_harness("C10", "c10", Schema(name + "pt", "int", ""), "mixin", kw2, kw2))
+    for j, sub in enumerate([("field/option",), ("field/strategy",), ("field/option", "config_strategy/exact"),
+                             ("field/strategy", "config_dialect/alias"), tuple(cells)]):
+        kw = "cells=%r" % (tuple(sub),)
+        hs.append(gen.custom_harness("C10", "c10", Schema("I%d" % j, "int", ""), "mixin3", kw, kw))
     dd = ["default_dialect/%s" % k for k in P.KEYS]
     for n in range(0, 4):
         for sub in itertools.combinations(dd, n):
